@@ -292,6 +292,21 @@ impl Check for C06 {
                     json!({"bytes": hex(&code), "tight": true}),
                 );
             }
+            // how a path ends must not matter: the same accesses followed by SELFDESTRUCT, RETURN or INVALID
+            if ix.len() <= 3 {
+                for (name, tail) in [("SELFDESTRUCT", vec![op::CALLER, op::SELFDESTRUCT]), ("RETURN", vec![op::PUSH0, op::PUSH0, op::RETURN]), ("INVALID", vec![op::INVALID])] {
+                    let mut ended = code.clone();
+                    ended.extend(&tail);
+                    ctx.case(|| json!({"bytes": hex(&ended)}));
+                    ctx.count("evaluations", 1);
+                    ctx.count("terminator_runs", 1);
+                    match check_code(&ended) {
+                        Ok(Some(_)) => ctx.distinct("nontrivial", crate::util::h64(&ended)),
+                        Ok(None) => {}
+                        Err(v) => ctx.violation(format!("{}:before-{name}", v.key), format!("{} [{seq:?} + {name} = {}]", v.what, hex(&ended)), json!({"bytes": hex(&ended)})),
+                    }
+                }
+            }
             // a watchdog that is really polled (and never stops anything) must not change what is reported
             if ix.len() <= 3 {
                 for poll in [1usize, 2, 3, 7] {
@@ -332,7 +347,7 @@ impl Check for C06 {
             "all token sequences <= {} over {} tokens: literal-key read (PUSH k SLOAD POP) and write (PUSH 1 PUSH k SSTORE) for 10 \
              boundary keys (1, 5, 10000, 2^64, 2^64+1, 2^128, 2^255, 2^256-1, the EIP-1967 slot, keccak(\"a\")-1), SLOAD/SSTORE with the \
              operand left on / taken from the stack for two keys, and context tokens (conditional jump to a label, JUMPDEST, STOP, \
-             REVERT, POP, CALLVALUE, a mask, DUP1), writes of 3- and 5-node values; sequences <= 3 additionally under value size limits \
+             REVERT, POP, CALLVALUE, a mask, DUP1), writes of 3- and 5-node values; sequences <= 3 additionally with SELFDESTRUCT / RETURN / INVALID appended, under value size limits \
              1..6 (culling at the limit must never remove the witness of an access) and under a never-stopping watchdog polled every 1, 2, 3, 7 iterations. Premise from the tool (offset executed in some stored state, or the VM's main loop made exactly as many iterations as the \
              reference EVM's path tree has steps) and from the reference \
              EVM (the access does not fault); when permissive analyze() succeeds every such key that is not keccak(n), n < 10000, must \
